@@ -37,6 +37,27 @@ type c44S3 struct {
 	o       *vfkit.ObjStore
 	ensures int
 	stall   func(key string) c44Stall
+	// mem, when set, is the repo's own MemoryS3Client doing the actual GET (its range
+	// handling included); the ObjStore stays the source of truth, op log and fault plan.
+	mem *storage.MemoryS3Client
+}
+
+// viaMem performs the GET on the MemoryS3Client after logging / faulting it on the model.
+func (s *c44S3) viaMem(ctx context.Context, kind, key string, rng *storage.ByteRange, index bool) ([]byte, error) {
+	if _, err := s.o.Get(kind, key, nil); err != nil && errors.Is(err, vfkit.ErrInjected) {
+		return nil, err
+	}
+	if b, ok := s.o.Peek(key); ok {
+		_ = s.mem.UploadSegment(ctx, key, b)
+		_ = s.mem.UploadIndex(ctx, key, b)
+	} else {
+		_ = s.mem.DeleteSegment(ctx, key)
+		_ = s.mem.DeleteIndex(ctx, key)
+	}
+	if index {
+		return s.mem.DownloadIndex(ctx, key)
+	}
+	return s.mem.DownloadSegment(ctx, key, rng)
 }
 
 // c44Stall: how a GET on the replica endpoint misbehaves in time.
@@ -123,6 +144,9 @@ func (s *c44S3) DownloadSegment(ctx context.Context, key string, rng *storage.By
 	if err := s.wait(ctx, key); err != nil {
 		return nil, err
 	}
+	if s.mem != nil {
+		return s.viaMem(ctx, "get-segment", key, rng, false)
+	}
 	var r *[2]int64
 	if rng != nil {
 		r = &[2]int64{rng.Start, rng.End}
@@ -133,6 +157,9 @@ func (s *c44S3) DownloadSegment(ctx context.Context, key string, rng *storage.By
 func (s *c44S3) DownloadIndex(ctx context.Context, key string) ([]byte, error) {
 	if err := s.wait(ctx, key); err != nil {
 		return nil, err
+	}
+	if s.mem != nil {
+		return s.viaMem(ctx, "get-index", key, nil, true)
 	}
 	b, err := s.o.Get("get-index", key, nil)
 	return b, s.mapErr(err)
@@ -169,15 +196,21 @@ type c44World struct {
 	stallR    map[string]c44Stall
 	failRAll  bool
 	failPList bool // the primary's LIST fails (throttling / 5xx)
+	memory    bool // GETs are served by storage.MemoryS3Client instances
 }
 
 // c44CallerDeadline: the caller's own context is live for the whole read (1 h of the
 // bubble's virtual clock); the data path of the broker uses contexts without deadline.
 const c44CallerDeadline = time.Hour
 
-func c44NewWorld() *c44World {
-	w := &c44World{p: vfkit.NewObjStore(), r: vfkit.NewObjStore(), failP: map[string]bool{}, failR: map[string]bool{}, stallR: map[string]c44Stall{}}
+func c44NewWorld() *c44World { return c44NewWorldKind(false) }
+
+func c44NewWorldKind(memory bool) *c44World {
+	w := &c44World{p: vfkit.NewObjStore(), r: vfkit.NewObjStore(), failP: map[string]bool{}, failR: map[string]bool{}, stallR: map[string]c44Stall{}, memory: memory}
 	w.pc, w.rc = &c44S3{o: w.p}, &c44S3{o: w.r}
+	if memory {
+		w.pc.mem, w.rc.mem = storage.NewMemoryS3Client(), storage.NewMemoryS3Client()
+	}
 	w.rc.stall = func(key string) c44Stall { return w.stallR[key] }
 	w.p.Fault = func(op vfkit.ObjOp) vfkit.FaultKind {
 		if strings.HasPrefix(op.Kind, "get") && w.failP[op.Key] {
@@ -219,6 +252,34 @@ func (w *c44World) staleServed(key string) bool {
 	return w.stale(key)
 }
 
+// c44Alone builds a healthy private bucket holding only key as found in o, of the same
+// kind (model / MemoryS3Client) as the world: "what that bucket alone would return".
+func (w *c44World) alone(o *vfkit.ObjStore, key string) *c44S3 {
+	ref := &c44S3{o: vfkit.NewObjStore()}
+	if w.memory {
+		ref.mem = storage.NewMemoryS3Client()
+	}
+	if b, ok := o.Peek(key); ok {
+		ref.o.PokeRaw(key, b)
+	}
+	return ref
+}
+
+// staleServedFor is the exact predicate of the known finding C44-stale-replica-served for
+// one read: the replica answers this read itself (no error, so no fallback) with something
+// the primary would not return for it.
+func (w *c44World) staleServedFor(key string, rd c44Read) bool {
+	if !w.staleServed(key) {
+		return false
+	}
+	rgot, rerr := c44DoRead(context.Background(), w.alone(w.r, key), key, rd)
+	if rerr != nil {
+		return false // the replica refuses (not found / range outside its copy): fallback
+	}
+	pgot, perr := c44DoRead(context.Background(), w.alone(w.p, key), key, rd)
+	return perr != nil || !bytes.Equal(rgot, pgot)
+}
+
 type c44Read struct {
 	Index bool
 	Rng   *storage.ByteRange
@@ -238,17 +299,18 @@ func c44DoRead(ctx context.Context, c storage.S3Client, key string, rd c44Read) 
 	if rd.Index {
 		return c.DownloadIndex(ctx, key)
 	}
-	return c.DownloadSegment(ctx, key, rd.Rng)
+	if rd.Rng == nil {
+		return c.DownloadSegment(ctx, key, nil)
+	}
+	r := *rd.Rng // every top-level call gets its own ByteRange, as the broker's callers build one per read
+	return c.DownloadSegment(ctx, key, &r)
 }
 
 // c44CheckRead performs one read through the dual client and compares it with what the
 // primary's content alone yields. Returns a violation description or "".
 func c44CheckRead(w *c44World, key string, rd c44Read) string {
 	// what the primary would return: a healthy private copy of its content
-	ref := &c44S3{o: vfkit.NewObjStore()}
-	if pb, ok := w.p.Peek(key); ok {
-		ref.o.PokeRaw(key, pb)
-	}
+	ref := w.alone(w.p, key)
 	// the caller's context is live before, during and after the read
 	ctx, cancel := context.WithTimeout(context.Background(), c44CallerDeadline)
 	defer cancel()
@@ -323,10 +385,6 @@ func c44Body(tag string, n int) []byte {
 // replica states of the exhaustive core
 var c44States = []string{"identical", "missing", "failing", "older-same-len", "older-shorter", "older-longer", "primary-deleted", "both-absent",
 	"stall-1s-error", "stall-3s-error", "stall-10m-error", "slow-3s-serve", "hang"}
-
-func c44StateStale(s string) bool {
-	return strings.HasPrefix(s, "older") || s == "primary-deleted"
-}
 
 func c44Apply(w *c44World, key, state string, isIndex bool) {
 	cur := c44Body("NEW-"+key, 96)
@@ -414,6 +472,8 @@ func TestVF_C44_Core(t *testing.T) {
 }
 
 func c44CoreBody(t *testing.T, st *vfkit.Stats, known bool, keys []string) {
+	c44CoreConcurrent(t, st, known, keys[0])
+	c44CoreRestore(t, st, known)
 	for _, s0 := range c44States {
 		for _, s1 := range c44States {
 			for ki, key := range keys {
@@ -423,35 +483,36 @@ func c44CoreBody(t *testing.T, st *vfkit.Stats, known bool, keys []string) {
 						if rd.Index != asIndex {
 							continue
 						}
-						if known && c44StateStale(state) {
-							st.ExcludedCase(c44StaleID)
-							continue
-						}
-						w := c44NewWorld()
-						c44Apply(w, keys[0], s0, asIndex)
-						c44Apply(w, keys[1], s1, asIndex)
-						st.Eval()
-						st.Class("state:" + state)
-						if state != "identical" {
-							st.NonTrivial(s0, s1, ki, asIndex, ri)
-							st.Sample(map[string]any{"states": []string{s0, s1}, "read_key": ki, "read": rd.String()})
-						}
-						if msg := c44CheckRead(w, key, rd); msg != "" {
-							t.Fatalf("replica states (%s,%s): %s", s0, s1, msg)
-						}
-						if msg := c44ReplicaClean(w); msg != "" {
-							t.Fatalf("replica states (%s,%s) read %s: %s", s0, s1, rd, msg)
-						}
-						// the same read while the primary endpoint fails for that key
-						w = c44NewWorld()
-						c44Apply(w, keys[0], s0, asIndex)
-						c44Apply(w, keys[1], s1, asIndex)
-						w.failP[key] = true
-						st.Eval()
-						st.Class("primary-failing:" + state)
-						st.NonTrivial("pfail", s0, s1, ki, asIndex, ri)
-						if msg := c44CheckRead(w, key, rd); msg != "" {
-							t.Fatalf("replica states (%s,%s), primary failing: %s", s0, s1, msg)
+						for _, memory := range []bool{false, true} {
+							backend := map[bool]string{false: "model", true: "MemoryS3Client"}[memory]
+							for _, pfail := range []bool{false, true} {
+								w := c44NewWorldKind(memory)
+								c44Apply(w, keys[0], s0, asIndex)
+								c44Apply(w, keys[1], s1, asIndex)
+								w.failP[key] = pfail
+								if known && w.staleServedFor(key, rd) {
+									st.ExcludedCase(c44StaleID)
+									continue
+								}
+								st.Eval()
+								cls := "state:" + state
+								if pfail {
+									cls = "primary-failing:" + state
+								}
+								st.Class(cls)
+								st.Class("backend:" + backend)
+								if state != "identical" || pfail {
+									if st.NonTrivial(s0, s1, ki, asIndex, ri, memory, pfail) && !pfail {
+										st.Sample(map[string]any{"states": []string{s0, s1}, "read_key": ki, "read": rd.String(), "backend": backend})
+									}
+								}
+								if msg := c44CheckRead(w, key, rd); msg != "" {
+									t.Fatalf("replica states (%s,%s), backend %s, primary failing=%v: %s", s0, s1, backend, pfail, msg)
+								}
+								if msg := c44ReplicaClean(w); msg != "" {
+									t.Fatalf("replica states (%s,%s) read %s: %s", s0, s1, rd, msg)
+								}
+							}
 						}
 					}
 				}
@@ -502,6 +563,186 @@ func c44CoreBody(t *testing.T, st *vfkit.Stats, known bool, keys []string) {
 				if msg := c44ReplicaClean(w); msg != "" {
 					t.Fatalf("replica states (%s,%s), %s, primary LIST failing: %s", s0, s1, variant, msg)
 				}
+			}
+		}
+	}
+}
+
+// c44ConcurrentReads issues two reads of one key through the dual client so that they
+// overlap on the primary: the primary's GET of that key is gated (ObjStore.OnOp) until both
+// callers are durably blocked (synctest.Wait). Each caller must get what the primary alone
+// returns for ITS read. Must run inside a synctest bubble.
+func c44ConcurrentReads(w *c44World, key string, a, b c44Read) string {
+	type result struct {
+		b   []byte
+		err error
+	}
+	reads := []c44Read{a, b}
+	var want [2]result
+	for i, rd := range reads {
+		want[i].b, want[i].err = c44DoRead(context.Background(), w.alone(w.p, key), key, rd)
+	}
+	gate := make(chan struct{})
+	w.p.OnOp = func(op vfkit.ObjOp) {
+		if strings.HasPrefix(op.Kind, "get") && op.Key == key {
+			<-gate
+		}
+	}
+	defer func() { w.p.OnOp = nil }()
+	ctx, cancel := context.WithTimeout(context.Background(), c44CallerDeadline)
+	defer cancel()
+	var got [2]result
+	done := make(chan int, 2)
+	for i := range reads {
+		go func(i int) {
+			got[i].b, got[i].err = c44DoRead(ctx, w.dual, key, reads[i])
+			done <- i
+		}(i)
+		synctest.Wait() // the caller is parked (at the primary's gate, or waiting for the other's flight) or done
+	}
+	close(gate)
+	<-done
+	<-done
+	for i, rd := range reads {
+		g, wnt := got[i], want[i]
+		if w.failP[key] {
+			if g.err == nil && (wnt.err != nil || !bytes.Equal(g.b, wnt.b)) {
+				return fmt.Sprintf("concurrent reads %s || %s of %q (primary failing): read %s returned %d bytes %q, primary content gives %q", a, b, key, rd, len(g.b), c44Short(g.b), c44Short(wnt.b))
+			}
+			continue
+		}
+		if (g.err == nil) != (wnt.err == nil) {
+			return fmt.Sprintf("concurrent reads %s || %s of %q: read %s: dual err=%v, primary alone err=%v", a, b, key, rd, g.err, wnt.err)
+		}
+		if g.err == nil && !bytes.Equal(g.b, wnt.b) {
+			return fmt.Sprintf("concurrent reads %s || %s of %q: read %s returned %d bytes %q, the primary alone returns %d bytes %q", a, b, key, rd, len(g.b), c44Short(g.b), len(wnt.b), c44Short(wnt.b))
+		}
+	}
+	return ""
+}
+
+// c44CoreConcurrent: every ordered pair of read shapes of one segment key, overlapping on
+// the primary, for the replica states that send both callers to the primary (and controls).
+func c44CoreConcurrent(t *testing.T, st *vfkit.Stats, known bool, key string) {
+	var shapes []c44Read
+	for _, r := range c44Reads(96) {
+		if !r.Index && (r.Rng == nil || r.Rng.End >= r.Rng.Start) {
+			shapes = append(shapes, r)
+		}
+	}
+	for _, state := range []string{"missing", "failing", "both-absent", "identical", "older-shorter", "older-longer"} {
+		for ai, a := range shapes {
+			for bi, b := range shapes {
+				w := c44NewWorld()
+				c44Apply(w, key, state, false)
+				if known && (w.staleServedFor(key, a) || w.staleServedFor(key, b)) {
+					st.ExcludedCase(c44StaleID)
+					continue
+				}
+				st.Eval()
+				st.Class("concurrent:" + state)
+				if ai != bi {
+					st.NonTrivial("concurrent", state, ai, bi)
+				}
+				if msg := c44ConcurrentReads(w, key, a, b); msg != "" {
+					t.Fatalf("replica state %s: %s", state, msg)
+				}
+			}
+		}
+	}
+}
+
+// c44CoreRestore: PartitionLog.RestoreFromS3 through the dual client equals the restore from
+// the primary alone, for the replica states a re-uploaded segment leaves behind: the key of
+// base offset 0 was first written with one batch (v1, its index upload failed) and then
+// re-flushed with two batches (v2); the replica may hold v1, v2, a longer v3, or nothing.
+func c44CoreRestore(t *testing.T, st *vfkit.Stats, known bool) {
+	build := func(base int64, counts ...int) *storage.SegmentArtifact {
+		var bs []storage.RecordBatch
+		off := base
+		for _, n := range counts {
+			rb, err := storage.NewRecordBatchFromBytes(vfkit.SimpleBatch(off, 1_700_000_000_000, n, "r"))
+			if err != nil {
+				t.Fatalf("harness: %v", err)
+			}
+			bs = append(bs, rb)
+			off += int64(n)
+		}
+		art, err := storage.BuildSegment(storage.SegmentWriterConfig{IndexIntervalMessages: 1}, bs, time.UnixMilli(1_700_000_000_000))
+		if err != nil {
+			t.Fatalf("harness: %v", err)
+		}
+		return art
+	}
+	v1, v2, v3, next := build(0, 2), build(0, 2, 3), build(0, 2, 3, 4), build(9, 1)
+	segKey := func(base int64) string { return fmt.Sprintf("default/t/0/segment-%020d.kfs", base) }
+	idxKey := func(base int64) string { return fmt.Sprintf("default/t/0/segment-%020d.index", base) }
+	type variant struct {
+		name string
+		seg  *storage.SegmentArtifact // replica copy of segment 0 (nil = none)
+		idx  *storage.SegmentArtifact // replica copy of index 0 (nil = none)
+		fail bool
+	}
+	variants := []variant{{"identical", v2, v2, false}, {"missing", nil, nil, false}, {"older-shorter-segment,no-index", v1, nil, false},
+		{"older-shorter-segment,current-index", v1, v2, false}, {"older-shorter-segment,older-index", v1, v1, false},
+		{"longer-segment,no-index", v3, nil, false}, {"current-segment,no-index", v2, nil, false}, {"no-segment,older-index", nil, v1, false},
+		{"failing", v2, v2, true}}
+	restore := func(c storage.S3Client) (int64, int64, error) {
+		pl := storage.NewPartitionLog("default", "t", 0, 0, c, nil, storage.PartitionLogConfig{}, nil, nil, nil)
+		last, err := pl.RestoreFromS3(context.Background())
+		return last, pl.EarliestOffset(), err
+	}
+	for _, v := range variants {
+		for _, memory := range []bool{false, true} {
+			backend := map[bool]string{false: "model", true: "MemoryS3Client"}[memory]
+			w := c44NewWorldKind(memory)
+			w.p.PokeRaw(segKey(0), v2.SegmentBytes)
+			w.p.PokeRaw(idxKey(0), v2.IndexBytes)
+			w.p.PokeRaw(segKey(9), next.SegmentBytes)
+			w.p.PokeRaw(idxKey(9), next.IndexBytes)
+			w.r.PokeRaw(segKey(9), next.SegmentBytes)
+			w.r.PokeRaw(idxKey(9), next.IndexBytes)
+			if v.seg != nil {
+				w.r.PokeRaw(segKey(0), v.seg.SegmentBytes)
+			}
+			if v.idx != nil {
+				w.r.PokeRaw(idxKey(0), v.idx.IndexBytes)
+			}
+			if v.fail {
+				w.failR[segKey(0)], w.failR[idxKey(0)] = true, true
+			}
+			// the reads RestoreFromS3 issues for segment 0: footer by the primary's listed size, index
+			sz := int64(len(v2.SegmentBytes))
+			footer := c44Read{Rng: &storage.ByteRange{Start: sz - 16, End: sz - 1}}
+			if known && (w.staleServedFor(segKey(0), footer) || w.staleServedFor(idxKey(0), c44Read{Index: true})) {
+				st.ExcludedCase(c44StaleID)
+				continue
+			}
+			// the primary alone: same kind of client over a private copy of the primary's content
+			alone := &c44S3{o: vfkit.NewObjStore()}
+			if memory {
+				alone.mem = storage.NewMemoryS3Client()
+			}
+			for k, b := range w.p.Snapshot() {
+				alone.o.PokeRaw(k, b)
+			}
+			wantLast, wantFirst, wantErr := restore(alone)
+			if wantErr != nil || wantLast != 9 {
+				t.Fatalf("harness: restore from the primary alone: last=%d err=%v", wantLast, wantErr)
+			}
+			st.Eval()
+			st.Class("restore:" + v.name)
+			st.Class("backend:" + backend)
+			if st.NonTrivial("restore", v.name, memory) {
+				st.Sample(map[string]any{"restore_from_s3": v.name, "backend": backend})
+			}
+			gotLast, gotFirst, gotErr := restore(w.dual)
+			if (gotErr == nil) != (wantErr == nil) || gotLast != wantLast || gotFirst != wantFirst {
+				t.Fatalf("RestoreFromS3 through the dual client (replica: %s, backend %s): last=%d earliest=%d err=%v; from the primary alone: last=%d earliest=%d err=%v",
+					v.name, backend, gotLast, gotFirst, gotErr, wantLast, wantFirst, wantErr)
+			}
+			if msg := c44ReplicaClean(w); msg != "" {
+				t.Fatalf("RestoreFromS3 (replica: %s): %s", v.name, msg)
 			}
 		}
 	}
@@ -600,7 +841,7 @@ type c44Op struct {
 	Stall int
 }
 
-var c44OpKinds = []string{"upload", "upload", "replicate", "replicate", "read", "read", "read", "read", "delete", "replica-fail", "primary-fail", "replica-stall", "replica-stall", "list", "list", "primary-list-fail"}
+var c44OpKinds = []string{"upload", "upload", "replicate", "replicate", "read", "read", "read", "read", "delete", "replica-fail", "primary-fail", "replica-stall", "replica-stall", "list", "list", "primary-list-fail", "concurrent-reads", "concurrent-reads"}
 
 var c44Stalls = []c44Stall{{}, {Dur: time.Second}, {Dur: 1999 * time.Millisecond}, {Dur: 2 * time.Second}, {Dur: 3 * time.Second}, {Dur: 45 * time.Second},
 	{Dur: 10 * time.Minute}, {Dur: 3 * time.Second, Serve: true}, {Dur: 30 * time.Second, Serve: true}, {Hang: true}}
@@ -620,10 +861,11 @@ func TestVF_C44_History(t *testing.T) {
 	rapid.Check(t, func(rt *rapid.T) {
 		inits := rapid.SliceOfN(rapid.SampledFrom([]string{"absent", "primary", "both", "both"}), 4, 4).Draw(rt, "init")
 		ops := rapid.SliceOfN(opGen, 20, 80).Draw(rt, "ops")
+		memory := rapid.Bool().Draw(rt, "memory-clients")
 		st.Eval()
 		verdict := ""
 		synctest.Test(t, func(*testing.T) {
-			verdict = c44RunHistory(st, known, inits, ops)
+			verdict = c44RunHistory(st, known, memory, inits, ops)
 		})
 		if verdict != "" {
 			rt.Fatalf("%s", verdict)
@@ -632,8 +874,9 @@ func TestVF_C44_History(t *testing.T) {
 }
 
 // c44RunHistory executes one pre-drawn history; returns "" or the violation.
-func c44RunHistory(st *vfkit.Stats, known bool, inits []string, ops []c44Op) string {
-	w := c44NewWorld()
+func c44RunHistory(st *vfkit.Stats, known bool, memory bool, inits []string, ops []c44Op) string {
+	w := c44NewWorldKind(memory)
+	st.Class(map[bool]string{false: "backend:model", true: "backend:MemoryS3Client"}[memory])
 	ctx := context.Background()
 	keys := []string{
 		"default/t/0/segment-00000000000000000000.kfs", "default/t/0/segment-00000000000000000000.index",
@@ -730,6 +973,32 @@ func c44RunHistory(st *vfkit.Stats, known bool, inits []string, ops []c44Op) str
 			if msg := c44HistoryRead(st, w, op, k, known, &trace, &sawNonIdentical); msg != "" {
 				return msg
 			}
+		case "concurrent-reads":
+			if strings.HasSuffix(k, ".index") || w.stallR[k].Dur > 0 || w.stallR[k].Hang {
+				break // two index reads are the same read; stalled replicas do not overlap on the primary
+			}
+			size := int64(64)
+			if pb, ok := w.p.Peek(k); ok {
+				size = int64(len(pb))
+			}
+			var shapes []c44Read
+			for _, r := range c44Reads(size) {
+				if !r.Index && (r.Rng == nil || (r.Rng.Start >= 0 && r.Rng.End >= r.Rng.Start)) {
+					shapes = append(shapes, r)
+				}
+			}
+			a, b := shapes[op.Shape%len(shapes)], shapes[(op.Shape/4+op.Size)%len(shapes)]
+			if known && (w.staleServedFor(k, a) || w.staleServedFor(k, b)) {
+				st.ExcludedCase(c44StaleID)
+				trace = append(trace, "skip-stale-concurrent")
+				break
+			}
+			st.Class("concurrent-reads")
+			sawNonIdentical = true
+			trace = append(trace, fmt.Sprintf("crd(%d,%s||%s)", op.Key, a, b))
+			if msg := c44ConcurrentReads(w, k, a, b); msg != "" {
+				return fmt.Sprintf("%s\nhistory: %v", msg, trace)
+			}
 		}
 		if msg := c44ReplicaClean(w); msg != "" {
 			return fmt.Sprintf("%s\nhistory: %v", msg, trace)
@@ -766,8 +1035,10 @@ func c44HistoryRead(st *vfkit.Stats, w *c44World, op c44Op, k string, known bool
 	sl := w.stallR[k]
 	cls := "replica-identical"
 	switch {
-	case w.staleServed(k):
+	case w.staleServedFor(k, rd):
 		cls = "replica-stale"
+	case w.staleServed(k):
+		cls = "replica-stale-but-refuses-this-read"
 	case w.failR[k]:
 		cls = "replica-failing"
 	case sl.Hang:
